@@ -84,7 +84,9 @@ CLAIMED = {
   text="Lean 4 theorems: Publish returns nil, a not-submitted class or an ErrSubmit and with a not-submitted class the state incl. the "
        "connection log is unchanged; a refused persisted publish consumed nothing; quit yields only ErrCanceled/ErrAbandoned; Ping ErrMax iff "
        "the slot is taken; deny and end classes are disjoint on produced errors. Every returned error of every request method in every client "
-       "state is classified with errors.Is/As against all sentinels and judged against the documented table on every run.",
+       "state is classified with errors.Is/As against all sentinels and judged against the documented table on every run. The classifier "
+       "behind IsDeny/IsEnd/Backoff (nonNilIsAny with its explicit work list) is proved equal to 'some node of the error tree is a target' for "
+       "error values of every shape (wrappers, joins of joins), and run against the real function, errors.Is and a second classification of the same value.",
   design="6/C14", technique="Lean 4 proof (decision logic over request outcomes) + differential correspondence + class monitor",
   note="partial: the classifier over arbitrary wrapped/joined errors (nonNilIsAny) and Backoff/ReadBackoff kinds are not modelled yet; documented table transcribed by hand"),
  "C18": dict(
